@@ -736,6 +736,11 @@ func (obj *SparseIntMatrixJointIterator) Ok() bool {
          !(obj.s2 == nil || obj.s2.GetInt() == int(0))
 }
 func (obj *SparseIntMatrixJointIterator) Next() {
+  // skip positions where both operands hold a zero
+  for obj.next() && !obj.Ok() {
+  }
+}
+func (obj *SparseIntMatrixJointIterator) next() bool {
   ok1 := obj.it1.Ok()
   ok2 := obj.it2.Ok()
   obj.s1.ptr = nil
@@ -763,6 +768,7 @@ func (obj *SparseIntMatrixJointIterator) Next() {
   } else {
     obj.s2 = ConstInt(0.0)
   }
+  return ok1 || ok2
 }
 func (obj *SparseIntMatrixJointIterator) Get() (Scalar, ConstScalar) {
   if obj.s1.ptr == nil {
